@@ -10,7 +10,8 @@ open A2l.G A2l.Sc
     * `pos`   position-restricted items stand in position order, in every block (finding `reserved-order`)
     * `last`  the last top-level item is a block: the file does not end in a keyword parameter
     (the third obstacle of C01, "a sequence is followed by a token that ends it", is derived for strict loads:
-    `seqOk_of_filePost`) -/
+    `seqOk_of_filePost`; no END offset is bumped either: the writer's `ends_in_line_comment` is exact on the loaded
+    content and the parser never records offset 0 behind a line comment, `fixEo_of_endOk`) -/
 structure Obstacles (e : Env) (items : List OT) : Prop where
   pos : OT.posAll e.code items
   last : LastIsBlock items
@@ -31,7 +32,7 @@ theorem parse_output_canonical_lemma (htab : tableOk e.table e.known = true) (hs
   obtain ⟨items, ver, fp⟩ := parseFile_post hin #[] htab hshape htags hns hroot h rfl
   obtain ⟨info, ch, cm, hv, h1, h2⟩ := fp.val
   exact ⟨items, ver, info, ch, cm, hv, h1, h2, fp.ord, fp.sim.fixL false, fp.canon, streamLex_of_filePost fp,
-    fixL_of_noBump items false fp.nb,
+    fixL_of_noBump items false fp.nb (lexWL_of _ items rarms false fp.wf fp.lexv) fp.eokL,
     fun X hp hl => writable_of_filePost hin.strict hroot fp X hp (seqOk_of_filePost hseqT fp X) hl⟩
 
 /-- **theorem 4**: strict load, write, load, write -/
@@ -80,7 +81,8 @@ theorem save_reload_strict_pos_lemma (htab : tableOk e.table e.known = true) (hs
     (writable_of_filePost hin.strict hroot fp _ hpos (seqOk_of_filePost hseqT fp _) hlast)
   refine ⟨r1, r2, fun fuel' hf => ?_⟩
   obtain ⟨v', s', p1, p2, p3⟩ := r3 fuel' hf
-  exact ⟨v', s', p1, p2, p3 fp.ord (fixL_of_noBump items false fp.nb) h1 h2⟩
+  exact ⟨v', s', p1, p2, p3 fp.ord
+    (fixL_of_noBump items false fp.nb (lexWL_of (mkC e lx #[] ver) items rarms false fp.wf fp.lexv) fp.eokL) h1 h2⟩
 
 /-- **theorem 2**, token level: the values of the tokens of the written stream are those of the input tokens with the
     skipped comments deleted -/
